@@ -64,7 +64,7 @@ const c05Net = "d"
 
 type c05Req struct {
 	ID   string `json:"id"`
-	Kind string `json:"kind"` // rest-create | rest-patch | grpc-transact | rest-delete-query | grpc-delete-query | manager-transact
+	Kind string `json:"kind"` // rest-create | rest-patch | grpc-transact | rest-delete-query | grpc-delete-query | manager-transact | manager-delete | manager-write
 	NI   int    `json:"inserts"`
 	ND   int    `json:"deletes"`
 
@@ -254,6 +254,12 @@ func c05Requests() []*c05Req {
 			out = append(out, &c05Req{ID: fmt.Sprintf("manager-transact/I%d/D%d", ni, nd), Kind: "manager-transact", NI: ni, ND: nd})
 		}
 	}
+	// the Manager's multi-tuple write and delete called top-level (no enclosing transaction in the
+	// caller's context): they have to open - and really use - their own transaction
+	for _, nd := range []int{101, 201} {
+		out = append(out, &c05Req{ID: fmt.Sprintf("manager-delete/D%d", nd), Kind: "manager-delete", ND: nd})
+	}
+	out = append(out, &c05Req{ID: "manager-write/I3001", Kind: "manager-write", NI: 3001})
 	return out
 }
 
@@ -319,6 +325,25 @@ func c05Exec(s *apih.Server, r *c05Req, pos int, bad string) (ok bool, desc stri
 			its = append(append([]*relationtuple.RelationTuple{}, its[:pos]...), append([]*relationtuple.RelationTuple{&cp}, its[pos+1:]...)...)
 		}
 		err = s.Reg.RelationTupleManager().TransactRelationTuples(ctx, its[:len(r.ins)], its[len(r.ins):])
+		return err == nil, fmt.Sprint(err)
+	case "manager-delete", "manager-write":
+		ctx, cancel := context.WithCancel(s.Ctx)
+		defer cancel()
+		all := append(append([]*ketoapi.RelationTuple{}, r.ins...), r.del...)
+		its, err := s.Reg.Mapper().FromTuple(ctx, all...)
+		if err != nil {
+			return false, "mapper: " + err.Error()
+		}
+		if pos >= 0 {
+			cp := *its[pos]
+			cp.Subject = nil
+			its = append(append([]*relationtuple.RelationTuple{}, its[:pos]...), append([]*relationtuple.RelationTuple{&cp}, its[pos+1:]...)...)
+		}
+		if r.Kind == "manager-delete" {
+			err = s.Reg.RelationTupleManager().DeleteRelationTuples(ctx, its...)
+		} else {
+			err = s.Reg.RelationTupleManager().WriteRelationTuples(ctx, its...)
+		}
 		return err == nil, fmt.Sprint(err)
 	}
 	panic("c05: unknown request kind " + r.Kind)
@@ -1195,7 +1220,7 @@ func TestC05(t *testing.T) {
 		r.build()
 		kinds := []string{"no-subject", "unknown-namespace", "unknown-subject-namespace"}
 		switch r.Kind {
-		case "manager-transact":
+		case "manager-transact", "manager-delete", "manager-write":
 			kinds = []string{"nil-subject"}
 		case "rest-delete-query", "grpc-delete-query":
 			continue
